@@ -299,3 +299,23 @@ func VH_C08_CondValues(p []int) {
 	_, _ = c.Unmarshal()
 	verifReach("end")
 }
+
+// Comparands: two stacks whose single element is drawn independently from the
+// value catalogue are compared in both directions (typed nil against a live
+// pointer of the same type, zero values against initialised ones, ...).
+// p: receiver kind (0 stack element, 1 condition expression)
+func VH_C08_EqualAwkward(p []int) {
+	a, b := vhAnyValue(nondetChoice(vhAnyCount)), vhAnyValue(nondetChoice(vhAnyCount))
+	if p[0] == 0 {
+		x, y := And().Push("lead", a), And().Push("lead", b)
+		_ = x.IsEqual(y)
+		_ = y.IsEqual(x)
+		verifAssert(x.IsInit() && y.IsInit(), "still-init")
+	} else {
+		x, y := Cond("k", Eq, a), Cond("k", Eq, b)
+		_ = x.IsEqual(y)
+		_ = y.IsEqual(x)
+		_ = And().Push(x).IsEqual(And().Push(y))
+	}
+	verifReach("end")
+}
